@@ -20,10 +20,10 @@ from cddsim.world import SimWorld
 
 ID = "C11"
 LEVEL = "exploration"
-B0 = 300000      # steps; 25x the envelope measured on the repaired tree (evidence: envelope_* keys)
+B0 = 150000      # steps; >= 25x what any small-input operation used on the repaired tree (evidence: envelope_* keys)
 B1 = 8000        # steps per input character (measured maximum 320)
 WALL_BACKSTOP_S = 120
-RULE = ("(a) every string over a 20-token docstring alphabet up to length 3 (quick) / 4 (thorough) plus seeded longer "
+RULE = ("(a) every string over a 24-token docstring alphabet up to length 3 (quick) / 4 (thorough) plus seeded longer "
         "ones, each fed to the docstring parser (two option sets), the three docstring round-trips and embedded in a "
         "function and a class for the source parsers; (b) seeded interface specs whose prose is drawn from a pool of "
         "empty / whitespace-only / leading-blank / header-without-body / back-tick strings through all nine emitters "
@@ -40,18 +40,23 @@ REAL = ["cdd parsers, emitters and doctrans (working tree)", "CPython ast"]
 STUBBED = ["time: the clock is the count of cdd line events (sys.settrace), never the wall clock"]
 
 TOKENS = (":param x:", ":type x:", ":return:", ":rtype:", "Args:", "Returns:", "Parameters\n----------",
-          "Returns\n-------", "x", "int", "`", "```", ":", "\n", "    ", " ", "(", ")", "Defaults to 5", ".")
+          "Returns\n-------", "x", "int", "`", "```", ":", "\n", "    ", " ", "(", ")", "Defaults to 5", ".",
+          "\t", " or ", " of ", ",")
+WHITESPACE_VARIANTS = ("\t", "\r", "\x0b", "\x0c", "\u00a0", "  ", "\n", " \n", "\t\t")
 CORE = (":param x:", ":type x:", ":return:", "Args:", "Parameters\n----------", "x", "```", ":", "\n", "    ", " ", "`")
 PROSE = ("", " ", "   ", "\n", "\t", "   \nfoo", "\n\nfoo", " \n \n bar", "foo\n\n   \nbar", "  leading", "trailing   ",
          "a" * 120, "word " * 30, "Defaults to 5", "Defaults to", ":param x:", "`", "```", "``` ```", "foo:\n  bar",
          "x\n    y\n        z", "Args:", "Returns:", "Parameters\n----------", ":return:", "a\n\n\n\nb", "(", "[x",
-         "the first thing", "Number of things.", "either `a` or `b`", "\n   ", "   \n", "\r\n", "- item\n- item")
+         "the first thing", "Number of things.", "either `a` or `b`", "\n   ", "   \n", "\r\n", "- item\n- item",
+         "the\tvalue, an int or a str", "List of\tint or str", "a\x0bb or c", "either\u00a0x or y", "one of 'a', 'b'\tor 'c'",
+         "int or\rstr", "Dict of\x0cstr", "x or", "or y", "of", "a or b or", "`a`, `b`, or\t`c`")
 STYLES = ("rest", "google", "numpydoc")
 
 
 def probes():
     return ["parse_ops", "emit_ops", "roundtrip_ops", "source_parse_ops", "truncated_inputs", "doctrans_histories",
-            "doctrans_second_pass", "whitespace_first_line_doc", "ops_over_10k_steps"]
+            "doctrans_second_pass", "whitespace_first_line_doc", "ops_over_10k_steps", "mutated_inputs",
+            "posonly_signature"]
 
 
 class _Wall(BaseException):
@@ -134,11 +139,37 @@ def spec_ops(rng):
         yield {"kind": "emit", "emitter": emitter, "spec": spec, "opts": opts}
 
 
-def wellformed_docstring(rng):
+RICH_DOCS = ("the %s value, an int or a str", "List of int or str for %s", "one of 'a', 'b' or 'c' (%s)",
+             "either `np` or `tf` as %s", "Dict of str to int; %s", "number of %s, if any", "whether %s applies")
+
+
+def mutate(rng, text):
+    """One seeded character-level mutation: a whitespace variant replaces a space, a character is dropped or doubled,
+    a line is duplicated."""
+    if not text:
+        return text
+    k = rng.randint(0, 4)
+    if k <= 1:
+        spaces = [i for i, ch in enumerate(text) if ch == " "]
+        if spaces:
+            i = rng.choice(spaces)
+            return text[:i] + rng.choice(WHITESPACE_VARIANTS) + text[i + 1:]
+    i = rng.randrange(len(text))
+    if k == 2:
+        return text[:i] + text[i + 1:]
+    if k == 3:
+        return text[:i] + text[i] * 2 + text[i:]
+    lines = text.split("\n")
+    j = rng.randrange(len(lines))
+    return "\n".join(lines[:j] + [lines[j]] + lines[j:])
+
+
+def wellformed_docstring(rng, rich=False):
     names = rng.sample(gen.PARAM_NAMES, rng.randint(1, 4))
     spec = {"name": "f", "doc": "Do the thing with care.",
             "params": [{"name": n, "typ": rng.choice(gen.SIMPLE_TYPES), "default": None,
-                        "doc": "the %s value. Defaults to %s" % (n, rng.choice(("5", "'a'", "None")))} for n in names],
+                        "doc": (rng.choice(RICH_DOCS) % n) if rich else
+                        "the %s value. Defaults to %s" % (n, rng.choice(("5", "'a'", "None")))} for n in names],
             "returns": {"typ": "int", "doc": "the result"}}
     style = rng.choice(STYLES)
     return "\n".join(gen.render_docstring_lines(spec, style)), spec, style
@@ -285,6 +316,9 @@ def work(task):
     import warnings
     warnings.simplefilter("ignore")
     proc.import_all()
+    import io
+    old_streams = (sys.stdout, sys.stderr)
+    sys.stdout, sys.stderr = io.StringIO(), io.StringIO()   # cdd prints while parsing odd inputs; only the coordinator reports
     rng = random.Random(task["seed"])
     st = new_stats()
     st["seeds"].append(task["seed"])
@@ -310,7 +344,7 @@ def work(task):
             for combo in itertools.product(toks, repeat=L):
                 if i % task["stride"] == task["offset"]:
                     text = "".join(combo)
-                    for op in (text_ops(text) if L <= 3 else itertools.islice(text_ops(text), 1)):
+                    for op in (text_ops(text) if L <= 2 else itertools.islice(text_ops(text), 3 if L == 3 else 1)):
                         handle(op)
                     st["runs"] += 1
                 i += 1
@@ -342,6 +376,13 @@ def work(task):
                 src = gen.render_function(spec, style=style)
                 cut = rng.randint(0, len(src))
                 handle({"kind": "doctrans_history", "source": src[:cut], "cmds": [[rng.choice(STYLES), True, False]]})
+            elif which == 3 and r % 8 == 3:   # (e) whitespace / character mutations of well-formed docstrings
+                text, spec, style = wellformed_docstring(rng, rich=True)
+                for _ in range(6):
+                    t = mutate(rng, text)
+                    st["probes"]["mutated_inputs"] = st["probes"].get("mutated_inputs", 0) + 1
+                    for op in itertools.islice(text_ops(t), 6):
+                        handle(op)
             else:               # (d) histories on the simulated disk
                 mod = _draw_module(rng)
                 cmds = [[rng.choice(STYLES), rng.choice((True, False)), rng.choice((True, False))]
@@ -349,8 +390,15 @@ def work(task):
                 handle({"kind": "doctrans_history", "source": mod, "cmds": cmds})
                 if len(samples) < 4:
                     samples.append({"doctrans_history": cmds, "source": mod[:600]})
+    if POSONLY[0]:
+        st["probes"]["posonly_signature"] = POSONLY[0]
+        POSONLY[0] = 0
+    sys.stdout, sys.stderr = old_streams
     nontrivial = sorted(st.pop("_nontrivial"))
     return {"stats": st, "violations": viols, "samples": samples, "digests": nontrivial, "nontrivial": nontrivial}
+
+
+POSONLY = [0]
 
 
 def _draw_module(rng):
@@ -375,10 +423,37 @@ def _draw_module(rng):
             spec["name"] = name.title().replace("_", "")
             parts.append(gen.render_class(spec))
         else:
-            parts.append(gen.render_function(spec, style=rng.choice(STYLES), annotate=rng.random() < 0.4,
-                                             doc=rng.random() < 0.9))
+            src = gen.render_function(spec, style=rng.choice(STYLES), annotate=rng.random() < 0.4,
+                                      doc=rng.random() < 0.9)
+            if params and rng.random() < 0.2:
+                # positional-only marker after a seeded parameter: def f(a, b=5, /, c=1)
+                head, rest = src.split("\n", 1)
+                inside = head[head.index("(") + 1:head.rindex(")")]
+                bits = gen_split(inside)
+                j = rng.randint(1, len(bits))
+                head = head[:head.index("(") + 1] + ", ".join(bits[:j] + ["/"] + bits[j:]) + head[head.rindex(")"):]
+                src = head + "\n" + rest
+                POSONLY[0] += 1
+            parts.append(src)
         parts.append("")
     return "\n".join(parts)
+
+
+def gen_split(sig):
+    parts, depth, cur = [], 0, ""
+    for ch in sig:
+        if ch in "([{":
+            depth += 1
+        elif ch in ")]}":
+            depth -= 1
+        if ch == "," and depth == 0:
+            parts.append(cur.strip())
+            cur = ""
+        else:
+            cur += ch
+    if cur.strip():
+        parts.append(cur.strip())
+    return parts
 
 
 def plan(tier, seed, scale=1.0):
